@@ -145,9 +145,19 @@ class Recorder:
 
 
 # --------------------------------------------------------------------------------------------- programs
+RAW_PID = 'raw-7'
+
+
 class Hooked:
     """mixin of the generated process classes"""
     RECORDER = None
+
+    @property
+    def pid(self):
+        # the process id is what the public `pid` property says (a class may derive it, e.g. prefix a tenant): it is constructed
+        # with RAW_PID and is known to everybody - subscriptions, announcements, controllers - as PID
+        raw = super().pid
+        return PID if raw == RAW_PID else raw
 
     def __init__(self, *a, **k):
         super().__init__(*a, **k)
@@ -342,8 +352,48 @@ class PauseFault(Hooked, plumpy.Process):
         super().on_pausing(msg)
 
 
-IMPL_ONLY_PROGRAMS = ('PauseFault',)       # programs the communication model does not know: decided by the twin comparison alone
-PROGRAMS = {'PauseFault': PauseFault, 'Async6': Async6, 'WaitAsync4': WaitAsync4, 'Failing5': Failing5, 'Sync4': Sync4, 'Sync2': Sync2, 'Async2': Async2, 'Waiter': Waiter, 'WaitAsync': WaitAsync, 'Failing': Failing}
+class DeferMixin:
+    """control calls that answer later: pause() / kill() return a future which is resolved, one loop iteration later, with what the
+    base call returns - itself an action future when a step is in flight, so the answer is a future inside a future (a class that
+    does some clean-up before it lets itself be killed).  Sits BELOW `Hooked` in the MRO: the remote handler and the direct call of
+    the twin both enter through `Hooked.kill`."""
+
+    def _defer(self, name, *a, **k):
+        fut = self.loop.create_future()
+        base = getattr(super(), name)
+
+        def go():
+            try:
+                fut.set_result(base(*a, **k))
+            except Exception as e:  # noqa
+                fut.set_exception(e)
+        self.loop.call_soon(go)
+        return fut
+
+    def pause(self, *a, **k):
+        return self._defer('pause', *a, **k)
+
+    def kill(self, *a, **k):
+        return self._defer('kill', *a, **k)
+
+
+class Deferred(Hooked, DeferMixin, plumpy.Process):
+    async def run(self):
+        self._rec('run')
+        await asyncio.sleep(0)
+        await asyncio.sleep(0)
+        await asyncio.sleep(0)
+        return ps.Continue(self.nxt)
+
+    async def nxt(self):
+        self._rec('nxt')
+        await asyncio.sleep(0)
+        await asyncio.sleep(0)
+        return 3
+
+
+IMPL_ONLY_PROGRAMS = ('PauseFault', 'Deferred')       # programs the communication model does not know: decided by the twin comparison alone
+PROGRAMS = {'PauseFault': PauseFault, 'Deferred': Deferred, 'Async6': Async6, 'WaitAsync4': WaitAsync4, 'Failing5': Failing5, 'Sync4': Sync4, 'Sync2': Sync2, 'Async2': Async2, 'Waiter': Waiter, 'WaitAsync': WaitAsync, 'Failing': Failing}
 WAITERS = ('Waiter', 'WaitAsync', 'WaitAsync4', 'PauseFault')
 
 
@@ -385,6 +435,19 @@ def show_outcome(f):
         return type(f).__name__
 
 
+def leaked_future(f):
+    """a reply is a VALUE (it crosses a communicator): the first object in the chain of a reply future that is a future of the
+    process's own event loop (an action future that was answered instead of awaited), or None"""
+    for _ in range(12):
+        if isinstance(f, asyncio.Future):
+            return f
+        if isinstance(f, kiwipy.Future) and f.done() and not f.cancelled() and f.exception() is None:
+            f = f.result()
+            continue
+        return None
+    return None
+
+
 def final_value(f):
     while isinstance(f, (kiwipy.Future, asyncio.Future)) and f.done() and not f.cancelled() and f.exception() is None:
         f = f.result()
@@ -421,7 +484,7 @@ class Run:
         self.proc = None
         Hooked.RECORDER = self.rec
         try:
-            self.proc = PROGRAMS[prog](loop=self.loop, communicator=self.lc, pid=PID)
+            self.proc = PROGRAMS[prog](loop=self.loop, communicator=self.lc, pid=RAW_PID)
         except Exception as e:  # noqa
             self.ctor_error = type(e).__name__
         finally:
@@ -717,6 +780,7 @@ def run_remote(prog, sched, fail=None, max_cb=400, after_checks=True):
         res['lines'].append(f'replies={reps} announced={R.comm.n_state} blog={bl}')
     res['reply_values'] = {i: show_outcome(f) for i, f in res['replies'].items()}
     res['reply_raw'] = {i: final_value(f) for i, f in res['replies'].items()}
+    res['reply_leaks'] = {i: type(x).__name__ for i, x in ((i, leaked_future(f)) for i, f in res['replies'].items()) if x is not None}
     res['final'] = R.twin_obs()
     res['rec_log'] = list(R.rec.log)
     res['n_state'] = R.comm.n_state
